@@ -1,5 +1,6 @@
 // vops.h - builder operation alphabet, executor and reference model (shared by C10, C13, C14).
 #pragma once
+#include <climits>
 #include "vlib.h"
 #include "vkeys.h"
 #include <memory>
@@ -52,6 +53,9 @@ static const int NHN = 7, NCN = 8;
 struct Val { int vt; long i; const char *s; };
 static const Val VALS[] = {{1, 0, 0}, {1, 7, 0}, {1, -1, 0}, {1, 1700000000, 0}, {2, 0, "JWT"}, {2, 0, "at+jwt"}, {2, 0, ""}, {2, 0, "h\xc3\xa9"}, {2, 0, "none"}, {3, 1, 0}, {3, 0, 0}, {4, 0, "{\"n\":[1,2,{\"d\":null}]}"}, {4, 0, "[]"}, {4, 0, "[\"x\",1.5]"}, {1, 4102444800L, 0}, {2, 0, "HS256"}};
 static const int NVALS = 16;
+// enable_iat argument: "0 to disable, any other value to enable" (jwt.h); odd op arguments enable, with every kind of truthy value
+static const int IAT_ON[] = {1, 2, -1, 256, 7, INT_MIN, 1 << 16, 255};
+inline int iat_arg(int a) { return (a & 1) ? IAT_ON[(a >> 1) % 8] : 0; }
 enum { CB_NONE, CB_MUTATE, CB_SELECT_KEY, CB_SELECT_PUB, CB_FAIL, CB_SELECT_KEY_ALG, CB_N };
 static const char *CBN[] = {"none", "mutating", "selects-key", "selects-public-key", "fails", "selects-key+alg"};
 static const long OFFS[] = {0, -1, -3600, 1, 60, 3600, 1L << 31};
@@ -68,7 +72,8 @@ struct CbCtx { int kind; int count; };
 inline int builder_cb(jwt_t *jwt, jwt_config_t *c) {
   CbCtx *x = (CbCtx *)c->ctx; x->count++;
   switch (x->kind) {
-  case CB_MUTATE: { jwt_value_t v = val_int("cb", x->count, 1); jwt_claim_set(jwt, &v); jwt_header_del(jwt, "x"); v = val_str("cbh", "v", 1); jwt_header_set(jwt, &v); jwt_claim_del(jwt, "sub"); return 0; }
+  case CB_MUTATE: {   // a well-behaved application: a set that reports failure (only possible under fault injection, C17) fails the callback
+    jwt_value_t v = val_int("cb", x->count, 1); if (jwt_claim_set(jwt, &v)) return 1; jwt_header_del(jwt, "x"); v = val_str("cbh", "v", 1); if (jwt_header_set(jwt, &v)) return 1; jwt_claim_del(jwt, "sub"); return 0; }
   case CB_SELECT_KEY: c->key = keytab()[3].lk->item; return 0;
   case CB_SELECT_PUB: c->key = keytab()[4].lk->item; return 0;
   case CB_SELECT_KEY_ALG: c->key = keytab()[0].lk->item; c->alg = JWT_ALG_HS384; return 0;
@@ -102,7 +107,7 @@ inline BResult apply(BExec &x, const BOp &o) {
     r.code = h ? jwt_builder_header_set(b, &jv) : jwt_builder_claim_set(b, &jv); if ((int)jv.error != r.code) r.code = -99; break; }
   case B_HDEL: r.code = jwt_builder_header_del(b, o.a % 9 == 8 ? nullptr : HNAMES[o.a % NHN]); break;
   case B_CDEL: r.code = jwt_builder_claim_del(b, o.a % 10 == 9 ? nullptr : CNAMES[o.a % NCN]); break;
-  case B_IAT: r.code = jwt_builder_enable_iat(b, o.a & 1); break;
+  case B_IAT: r.code = jwt_builder_enable_iat(b, iat_arg(o.a)); break;
   case B_OFFSET: r.code = jwt_builder_time_offset(b, (o.a % 3 == 0) ? JWT_CLAIM_EXP : (o.a % 3 == 1) ? JWT_CLAIM_NBF : JWT_CLAIM_ISS, (time_t)OFFS[o.b % 7]); break;
   case B_SETKEY: { int key = (o.b % ((int)keytab().size() + 1)) - 1; r.code = jwt_builder_setkey(b, ALGCH[o.a % NALGCH], key < 0 ? nullptr : keytab()[key].lk->item) ? 1 : 0; break; }
   case B_SETCB: { int kind = o.a % CB_N; x.cx.kind = kind; r.code = jwt_builder_setcb(b, kind == CB_NONE ? nullptr : builder_cb, kind == CB_NONE ? nullptr : &x.cx); break; }
@@ -163,7 +168,7 @@ inline std::string bop_str(const BOp &o) {
   case B_HSET: case B_CSET: { const Val &v = VALS[o.b % NVALS]; s += std::string(((o.k % B_N) == B_HSET) ? HNAMES[o.a % NHN] : CNAMES[o.a % NCN]) + "," + (v.vt == 1 ? std::to_string(v.i) : v.vt == 3 ? (v.i ? "true" : "false") : std::string("'") + v.s + "'") + ((o.c & 1) ? ",replace" : ""); break; }
   case B_HDEL: s += o.a % 9 == 8 ? "NULL" : HNAMES[o.a % NHN]; break;
   case B_CDEL: s += o.a % 10 == 9 ? "NULL" : CNAMES[o.a % NCN]; break;
-  case B_IAT: s += std::to_string(o.a & 1); break;
+  case B_IAT: s += std::to_string(iat_arg(o.a)); break;
   case B_OFFSET: s += std::string(o.a % 3 == 0 ? "exp" : o.a % 3 == 1 ? "nbf" : "iss") + "," + std::to_string(OFFS[o.b % 7]); break;
   case B_SETKEY: { int key = (o.b % ((int)keytab().size() + 1)) - 1; jwt_alg_t a = ALGCH[o.a % NALGCH]; s += std::string(a == JWT_ALG_NONE ? "none" : jwt_alg_str(a)) + "," + (key < 0 ? "NULL" : keytab()[key].label); break; }
   case B_SETCB: s += CBN[o.a % CB_N]; break;
